@@ -11,22 +11,22 @@ From TSG Require Import Model.Strict Model.Stdlib Spec.StdlibDoc.
 From TSG Require Import Proofs.BaseFacts Proofs.MonadFacts Proofs.Containers Proofs.OrderFacts Proofs.Stdlib.
 
 (* ------------------------------------------------------------------ static conditions on programs *)
-(* every capture expression satisfies okq (quantifier, stanza capture index) *)
-Fixpoint expr_ok (okq : quant -> N -> bool) (e : expr) {struct e} : bool :=
+(* every capture expression satisfies okq (quantifier, file capture index, stanza capture index) *)
+Fixpoint expr_ok (okq : quant -> N -> N -> bool) (e : expr) {struct e} : bool :=
   match e with
   | EList es | ESet es => forallb (expr_ok okq) es
   | EListComp elem _ _ value _ | ESetComp elem _ _ value _ => expr_ok okq elem && expr_ok okq value
-  | ECapture _ q _ idx _ => okq q idx
+  | ECapture _ q fi si _ => okq q fi si
   | EScoped scope _ _ => expr_ok okq scope
   | ECall _ args => forallb (expr_ok okq) args
   | _ => true
   end.
-Definition var_ok (okq : quant -> N -> bool) (v : variable) : bool :=
+Definition var_ok (okq : quant -> N -> N -> bool) (v : variable) : bool :=
   match v with VarU _ _ => true | VarS scope _ _ => expr_ok okq scope end.
-Definition attr_ok (okq : quant -> N -> bool) (a : attr) : bool := let '(Attr _ value) := a in expr_ok okq value.
-Definition cond_ok (okq : quant -> N -> bool) (c : cond) : bool :=
+Definition attr_ok (okq : quant -> N -> N -> bool) (a : attr) : bool := let '(Attr _ value) := a in expr_ok okq value.
+Definition cond_ok (okq : quant -> N -> N -> bool) (c : cond) : bool :=
   match c with CSome e _ | CNone e _ | CBool e _ => expr_ok okq e end.
-Fixpoint stmt_ok (okq : quant -> N -> bool) (s : stmt) {struct s} : bool :=
+Fixpoint stmt_ok (okq : quant -> N -> N -> bool) (s : stmt) {struct s} : bool :=
   match s with
   | SLet v e _ | SVar v e _ | SSet v e _ => var_ok okq v && expr_ok okq e
   | SNode v _ _ => var_ok okq v
@@ -62,7 +62,9 @@ Definition cap_ok (m : qmatch) (q : quant) (idx : N) : bool :=
   | QOne => match nodes_for_capture m idx with [] => false | _ :: _ => true end
   | _ => true
   end.
-Definition no_capture (q : quant) (idx : N) : bool := false.
+Definition no_capture (q : quant) (fi si : N) : bool := false.
+(* the strict interpreter looks captures up by their index in the stanza query *)
+Definition cap_ok_stanza (m : qmatch) (q : quant) (fi si : N) : bool := cap_ok m q si.
 
 (* ------------------------------------------------------------------ good values *)
 Section Good.
@@ -494,15 +496,15 @@ Section Safe.
     Qed.
 
     (* evaluating a capture expression that satisfies okq neither panics nor yields a bad value *)
-    Definition caps_safe (m : qmatch) (okq : quant -> N -> bool) : Prop :=
-      forall q idx, okq q idx = true ->
-        match from_nodes (nodes_for_capture m idx) q with
+    Definition caps_safe (m : qmatch) (okq : quant -> N -> N -> bool) : Prop :=
+      forall q fi si, okq q fi si = true ->
+        match from_nodes (nodes_for_capture m si) q with
         | Ok v => forall n, vgood sok n v
         | Panic _ => False
         | _ => True
         end.
     Lemma caps_safe_none m : caps_safe m no_capture.
-    Proof. intros q idx H. discriminate. Qed.
+    Proof. intros q fi si H. discriminate. Qed.
 
     Notation eval' := (eval t fl glob call).
     Ltac tt_ret := apply safe_ret; intros; exact I.
@@ -551,7 +553,7 @@ Section Safe.
           eapply vsgood_mono; [|exact Hvs]. exact Hn2.
       - apply (Hcomp elem var vale VList He). intros out n H. apply vgood_list. exact H.
       - apply (Hcomp elem var vale (fun out => VSet (set_of_list out)) He). intros out n H. apply vgood_set. apply set_of_list_good. exact H.
-      - apply safe_lift. specialize (Hc q si He). destruct (from_nodes (nodes_for_capture (le_match le) si) q); auto.
+      - apply safe_lift. specialize (Hc q fi si He). destruct (from_nodes (nodes_for_capture (le_match le) si) q); auto.
         intros n _. apply Hc.
       - apply safe_unscoped_get.
       - eapply safe_bind; [eapply IH; eauto|]. intros sv n1 Hn1 _.
@@ -751,7 +753,7 @@ Section Safe.
     (* ---- matches: what tree-sitter guarantees about a match of the stanza's query ---- *)
     Definition good_match (st : stanza) (m : qmatch) : Prop :=
       nodes_for_capture m (st_full_stanza_idx st) <> [] /\
-      forallb (stmt_ok (cap_ok m)) (st_stmts st) = true /\
+      forallb (stmt_ok (cap_ok_stanza m)) (st_stmts st) = true /\
       Forall (fun c : N * list N => Forall sok (snd c)) m.
     Fixpoint good_matches (sts : list stanza) (ms : list (list qmatch)) {struct sts} : Prop :=
       match sts, ms with
@@ -764,7 +766,12 @@ Section Safe.
       induction m as [|[j ns] m IH]; intros H; cbn [nodes_for_capture]; [constructor|]. inversion H; subst.
       destruct (N.eqb i j); [apply Forall_app; split; auto|auto].
     Qed.
-    Lemma caps_safe_cap_ok m : Forall (fun c : N * list N => Forall sok (snd c)) m -> caps_safe m (cap_ok m).
+    Lemma cap_ok_from_nodes m : Forall (fun c : N * list N => Forall sok (snd c)) m -> forall q idx, cap_ok m q idx = true ->
+      match from_nodes (nodes_for_capture m idx) q with
+      | Ok v => forall n, vgood sok n v
+      | Panic _ => False
+      | _ => True
+      end.
     Proof.
       intros H q idx Hq. pose proof (nodes_for_capture_sok m idx H) as Hn. unfold cap_ok in Hq.
       assert (Hl : forall k, vgood sok k (VList (map VSyn (nodes_for_capture m idx)))).
@@ -777,6 +784,8 @@ Section Safe.
       - exact Hl.
       - exact Hl.
     Qed.
+    Lemma caps_safe_cap_ok m : Forall (fun c : N * list N => Forall sok (snd c)) m -> caps_safe m (cap_ok_stanza m).
+    Proof. intros H q fi si Hq. apply cap_ok_from_nodes; assumption. Qed.
 
     Lemma safe_exec_stanza fuel st m n0 sh : good_match st m -> forallb (scans_ok regexes) (st_stmts st) = true ->
       safe n0 sh sh T (exec_stanza t fl cfg glob regexes find call fuel st m).
@@ -784,7 +793,7 @@ Section Safe.
       intros (Hfull & Hok & Hm) Hsc. unfold exec_stanza. eapply safe_bind; [apply safe_clear_frame|]. intros _ n1 Hn1 _.
       apply safe_iterM_in. intros s Hin n2 Hn2. cbv zeta.
       destruct (nodes_for_capture m (st_full_stanza_idx st)) as [|n ns] eqn:En; [exfalso; apply Hfull; reflexivity|].
-      apply safe_ctx. apply safe_exec_stmt with (okq := cap_ok m).
+      apply safe_ctx. apply safe_exec_stmt with (okq := cap_ok_stanza m).
       - cbn [le_with_ctx le_match]. apply caps_safe_cap_ok, Hm.
       - cbn [le_with_ctx le_match le_full]. rewrite En. discriminate.
       - eapply forallb_In; eauto.
